@@ -332,7 +332,7 @@ theorem skel_NodeRelease : Gen.Skel.NodeRelease = ["storage.Delete"] := by decid
 theorem skel_HybridSetNXRuntime :
     Gen.Skel.HybridSetNXRuntime = ["nxSetter.SetNX", "nxSetter.SetNX", "h.Exists", "h.setRuntime"] := by decide
 theorem skel_HybridSetNX :
-    Gen.Skel.HybridSetNX = ["h.getCacheForKey", "nxSetter.SetNX", "cache.Exists", "cache.Set"] := by decide
+    Gen.Skel.HybridSetNX = ["h.cacheTierFor", "nxSetter.SetNX", "cache.Exists", "cache.Set"] := by decide
 
 /-! ## Non-vacuity -/
 
